@@ -18,6 +18,9 @@ What is proved here is the lock discipline, not the scheduler (DESIGN.md 7.19):
   (`Gen/Access.lean`, rewritten by `harness/cmd/extract-access` on every run of the check);
 * `c19_race_free`, `c19_guarded_race_free`: the two combined.
 
+Package-level variables include variables captured by function literals made during package
+initialisation (see `globals_init_only_holds`).
+
 Not proved (trusted, see checks/C19.json): that the extraction sees every access (aliasing is
 approximated by (type, field); reflection and foreign code are invisible), the allow-list, the
 Go memory model, and "same result as sequential" on the binary (sampled by corr-c19-race).
@@ -110,6 +113,15 @@ example : ∃ s, Reach (M := Nat × Nat) [[Ev.write (1, 5)], [Ev.write (1, 5)]] 
 
 theorem reader_discipline_holds : ReaderDiscipline Gen.Access.facts = true := by decide +kernel
 
+/-- Package-level state is written during package initialisation only.  The package-level
+variables of the table (`Facts.globals`) are the declared ones and the CAPTURED ones: a local
+variable of a function that runs during package initialisation (the package initialisers and what
+they call statically, e.g. `initTypes`) that is captured by a function literal whose value is kept
+(stored, returned, sent, started with `go`, handed to a function of the packages) is the location
+`<function>$<variable>`; loads and stores through it - also in the body of the literal - are reads
+and writes of that location (rule in full: harness/cmd/extract-access/closures.go).  A store to it
+in a literal that can run after initialisation (a builder closure of ast.go that keeps a lazily
+made value between calls) makes this obligation fail. -/
 theorem globals_init_only_holds : GlobalsInitOnly Gen.Access.facts = true := by decide +kernel
 
 theorem guarded_locations_hold : GuardedLocations Gen.Access.facts = true := by decide +kernel
